@@ -95,6 +95,7 @@ RULES = [
     ('R4d', '&a & &b -> bitand_(&a, &b)', re.compile(r'&(\w+) & &(\w+)'), r'bitand_(&\1, &\2)'),
     ('R6i', '`return self.f(args);` -> `let ret__ = self.f(args); return ret__;` (definitional; gives the call a name)',
      re.compile(r'(?m)^([ \t]*)return (self\.\w+\([^;]*\));'), r'\1let ret__ = \2;\n\1return ret__;'),
+    ('R5d', '(X.cancel)() -> X.cancel_poll_() (a direct poll of the cancellation callback: an arbitrary boolean)', re.compile(r'\((\w+)\.cancel\)\(\)'), r'\1.cancel_poll_()'),
     ('R7g', 'X.as_ref().map_or_else(Vec::new, |Y| Y.roots.iter().collect()) -> meta_roots_(&X) (the roots recorded in the metadata, or none)',
      re.compile(r'(\w+)\s*\.as_ref\(\)\s*\.map_or_else\(Vec::new, \|(\w+)\| \2\.roots\.iter\(\)\.collect\(\)\)'), r'meta_roots_(&\1)'),
     ('R7e', '(m as f64 * 2.0 / 3.0).floor() as usize -> two_thirds_(m) (floating point: an uninterpreted usize)',
@@ -135,10 +136,10 @@ def rule_r9(text):
 
 R6B_DESC = ('R6b', 'for PAT in EXPR { .. } over a non-range iterator -> let mut iter__N = EXPR; while let Some(PAT) = iter__N.next() { .. } '
             '(Rust\'s definition of `for`; integer ranges `a..b` are left to Verus); '
-            '`for PAT in vec.iter()` over a plain identifier -> index loop `let PAT = &vec[idx__N]` (R6h)')
+            '`for PAT in vec.iter()` for a Vec named by //@veciter -> index loop `let PAT = &vec[idx__N]` (R6h)')
 
 
-def rule_r6b(text):
+def rule_r6b(text, veciter=()):
     n = 0
     out = text
     while True:
@@ -162,7 +163,7 @@ def rule_r6b(text):
             if expr.startswith('iter__') or re.match(r'^&(mut )?\w+$', expr):
                 continue  # a borrowed plain collection: left to Verus
             mv = re.match(r'^(\w+)\.iter\(\)$', expr)
-            if mv:
+            if mv and mv.group(1) in veciter:
                 # R6h: `for PAT in vec.iter()` -> index loop with `let PAT = &vec[idx];`
                 ls = out.rfind('\n', 0, m.start()) + 1
                 indent = re.match(r'[ \t]*', out[ls:]).group(0)
@@ -221,7 +222,7 @@ def rule_r6d(text):
         n += 1
 
 
-def apply_rules(text, skip=()):
+def apply_rules(text, skip=(), veciter=()):
     fired = {}
     for rid, _desc, rx, rep in RULES:
         if rid in skip:
@@ -234,7 +235,7 @@ def apply_rules(text, skip=()):
         if n:
             fired['R6d'] = n
     if 'R6b' not in skip:
-        text, n = rule_r6b(text)
+        text, n = rule_r6b(text, veciter)
         if n:
             fired['R6b'] = n
     if 'R9' not in skip:
@@ -264,6 +265,7 @@ class Block:
         self.loopend = {}
         self.substs = []   # (old, new, count)
         self.hints = []    # (where, anchor, text)
+        self.veciter = []       # identifiers that are Vecs: `for P in NAME.iter()` becomes an index loop (R6h)
         self.ghostparams = []   # declarations appended to the parameter list (erased at run time)
         self.ghostargs = []     # (callee, expr) appended to every call of `callee` in the body
         self.noglobal = []
@@ -364,6 +366,8 @@ def parse_template(path, units_dir):
                             tgt.append(lines[i])
                         i += 1
                     b.substs.append(('\n'.join(old), '\n'.join(new), cnt)); cur = None
+                elif ln.startswith('//@veciter '):
+                    b.veciter += ln.split()[1:]; cur = None
                 elif ln.startswith('//@ghostparam '):
                     b.ghostparams.append(ln[len('//@ghostparam '):].strip()); cur = None
                 elif ln.startswith('//@ghostarg '):
@@ -497,7 +501,7 @@ def extract_block(b: Block, snapshot: str):
     raw = src[loc['start']:loc['body_close'] + 1]
     src_line0 = rustlex.line_of(src, loc['start'])
     src_line1 = rustlex.line_of(src, loc['body_close'])
-    text, fired = apply_rules(raw, skip=b.noglobal)
+    text, fired = apply_rules(raw, skip=b.noglobal, veciter=b.veciter)
     if not b.stub:
         text, nin = strip_inner_items(text)
         if nin:
